@@ -205,6 +205,8 @@ def _diag(
             conf["label"] = "{}\n{}W".format(
                 name, _nice_float(ldf[ldf.Component == name]["Loss (W)"].to_list()[0])
             )
+        if "label" not in conf:
+            conf["label"] = name
         gr.add_node(pydot.Node(_q(name), **conf))
 
     # heat diagram operations
